@@ -112,11 +112,24 @@ TestSetUpErr(w, s, l) ==
 (* <<clause, next state>> *)
 (* A testSetUp for a layer that already had one, in a bracket that owes no  *)
 (* testTearDown, opens the bracket after a test that ran no code.           *)
+(* If only a prefix of the calls seen so far (up to the earlier call for l)   *)
+(* owes no testTearDown, that prefix was the whole bracket of such a test    *)
+(* and the rest already belongs to the next one (layer switched to without   *)
+(* an observable event).                                                     *)
+GhostPrefix(w, s, l) ==
+  IF s.ph = "opening" /\ l \in SeqSet(s.br)
+  THEN LET k == CHOOSE j \in 1..Len(s.br) : s.br[j] = l
+       IN IF \A j \in 1..k : ~w.perDown[s.br[j]] THEN k ELSE 0
+  ELSE 0
+
 BrTestSetUp(w, s, l) ==
   LET again == s.ph = "opening" /\ l \in SeqSet(s.br) /\ BracketClosedErr(w, s) = ""
       new == Used(s) \/ again
       ce == IF Used(s) THEN BracketClosedErr(w, s) ELSE ""
-      s1 == IF new THEN BracketNew(s) ELSE s
+      k == IF new THEN 0 ELSE GhostPrefix(w, s, l)
+      s1 == IF new THEN BracketNew(s)
+            ELSE IF k > 0 THEN [s EXCEPT !.br = SubSeq(s.br, k + 1, Len(s.br)), !.ghosts = @ + 1]
+            ELSE s
   IN <<IF ce # "" THEN ce ELSE TestSetUpErr(w, s1, l),
        [s1 EXCEPT !.br = Append(s1.br, l), !.ph = "opening"]>>
 
